@@ -41,7 +41,9 @@ type Case struct {
 }
 
 var keys = [][]byte{[]byte("a"), []byte("b"), []byte("c"), []byte("ctr"), []byte("d\x00"), []byte("\xff"),
-	bytes.Repeat([]byte{'L'}, 1024), append(bytes.Repeat([]byte{'L'}, 1020), 'x')} // incl. keys as long as a key may be
+	bytes.Repeat([]byte{'L'}, 1024), append(bytes.Repeat([]byte{'L'}, 1020), 'x'), // incl. keys as long as a key may be
+	// ... and the keys at the very end of the key space (seeded change C05-K: the table dump a follower recovers from stops short of them)
+	bytes.Repeat([]byte{0xFF}, 1019), bytes.Repeat([]byte{0xFF}, 1024)}
 
 func genCase(t *rapid.T) Case {
 	n := rapid.IntRange(3, 40).Draw(t, "n")
